@@ -151,10 +151,20 @@ class PS(object):
         self.typed = typed
         self.universe = []          # node objects (Primitive / Terminal instances, ephemeral classes)
         self.ephkey = {}
-        if typed:
-            self._build_typed(rng, gappy, small)
-        else:
-            self._build_untyped(rng, small)
+        self.addlog = []            # (node, isinstance(node, Primitive)) in the order of the _add calls
+        orig = gp.PrimitiveSetTyped._add
+
+        def recording_add(pset_self, prim):
+            self.addlog.append((prim, isinstance(prim, gp.Primitive)))
+            return orig(pset_self, prim)
+        gp.PrimitiveSetTyped._add = recording_add
+        try:
+            if typed:
+                self._build_typed(rng, gappy, small)
+            else:
+                self._build_untyped(rng, small)
+        finally:
+            gp.PrimitiveSetTyped._add = orig
         self.index()
 
     def _fn(self, *a):
@@ -210,11 +220,11 @@ class PS(object):
             while changed:
                 changed = False
                 for t in list(ps.terminals.keys()) + [ret]:
-                    if len(ps.terminals[t]) == 0:
+                    if len(ps.terminals.get(t, [])) == 0:
                         ps.addTerminal(100 + nt_, t)
                         nt_ += 1
                         changed = True
-                    if len(ps.primitives[t]) == 0:
+                    if len(ps.primitives.get(t, [])) == 0:
                         ar = rng.randint(1, 2)
                         ps.addPrimitive(self._fn, [t if rng.random() < 0.5 else rng.choice(tys) for _ in range(ar)], t,
                                         name="p%d" % np_)
@@ -280,6 +290,29 @@ class PS(object):
             self.k, self.k, tbl(self.prim_tbl), tbl(self.term_tbl), self.tid[self.pset.ret],
             self.ratio.numerator, self.ratio.denominator)
         return u + p
+
+    def pset_term(self):
+        """Corr term: the _add sequence and the tables it produced"""
+        pairs = ["(%d,%d)" % (i, j) for a, i in self.tid.items() for b, j in self.tid.items() if issubclass(a, b)]
+        ops = ["(%s,%d)" % (cbool(isp), self.nid[id(x)]) for x, isp in self.addlog]
+
+        def tbl(d):
+            return clist(["(%d, %s)" % (self.tid[t], clist(["%d" % self.nid[id(x)] for x in l])) for t, l in d.items()])
+        return "CPset U%d %s %s %s %s %d %d" % (self.k, clist(pairs), clist(ops), tbl(self.prim_tbl), tbl(self.term_tbl),
+                                              self.pset.terms_count, self.pset.prims_count)
+
+    def table_problems(self):
+        """independent statement of what the tables must hold: at every registered type exactly the
+        added nodes of that kind whose return type is a subclass, once each"""
+        out = []
+        for kind, d in ((True, self.prim_tbl), (False, self.term_tbl)):
+            added = [x for x, isp in self.addlog if isp == kind]
+            for t, l in d.items():
+                want = [x for x in added if issubclass(x.ret, t)]
+                if sorted(map(id, l)) != sorted(map(id, want)):
+                    out.append("%s[%s] holds %r, expected %r" % ("primitives" if kind else "terminals", t.__name__,
+                                                                   [x.name for x in l], [x.name for x in want]))
+        return out
 
     def describe(self):
         gp = self.gp
@@ -741,6 +774,16 @@ def main(run):
     small_sets = [PS(gp, False, rng, small=True), PS(gp, True, rng, small=True)]
     if run.thorough:
         small_sets += [PS(gp, True, rng, small=True) for _ in range(3)]
+    # the tables themselves: model of _add against pset.primitives / pset.terminals
+    for ps in psets + small_sets + [PS(gp, True, rng, gappy=(i % 3 == 0)) for i in range(run.scale(20, 200))]:
+        case = {"kind": "pset", "pset": ps.describe(), "adds": [(x.name, isp) for x, isp in ps.addlog]}
+        probs = ps.table_problems()
+        if probs:
+            run.oracle_violation("primitive-set table is not the pool of subclass-compatible nodes: " + probs[0], case)
+        ratio = ps.pset.terminalRatio
+        if Fraction(ratio) != ps.ratio:
+            run.oracle_violation("terminalRatio is not terms/(terms+prims)", case, observed=ratio)
+        emit(ps, ps.pset_term(), case)
 
     all_mm = [(a, b) for a in range(0, 7) for b in range(a, 7)]
     for ps in psets:
